@@ -32,6 +32,9 @@ type Program struct {
 	// lemmaRegion: lemmas listed as known findings hold only outside the recorded region;
 	// wherever such a lemma is used as a fact it is weakened to (region || lemma)
 	lemmaRegion map[string]string
+	// localSigs: type and provenance of the local names of the functions under contract, as recorded by
+	// `pikevc pin` (props/_locals.json); used to follow renamed locals
+	localSigs map[string]map[string]localSig
 }
 
 var pikePkgs = []string{"./cache", "./server", "./location", "./config", "./compress", "./upstream", "./util", "./store"}
